@@ -20,7 +20,7 @@ RULE = ('bodies: random bytes; grammar-mutated multipart (truncation at every of
         'non-object, empty, non-UTF-8, nested to depth 100000, NaN, huge numbers); urlencoded junk; x framing (Content-Length exact/short/long/not a number, '
         'chunked valid and malformed) x max_memfile_size x accessor {forms, files, POST, params, json, body}. Non-trivial = the body is not a '
         'well-formed instance of its content type; distinct = distinct (content type, body, framing, accessor, buffer).')
-REQUIRED = ['malformed_content_length_header', 'cpu_budget_requests', 'requests', 'status_2xx', 'status_4xx', 'multipart_mutations', 'truncations', 'json_bodies', 'urlencoded_bodies', 'random_bytes_bodies',
+REQUIRED = ['requests_with_max_body_size', 'malformed_content_length_header', 'cpu_budget_requests', 'requests', 'status_2xx', 'status_4xx', 'multipart_mutations', 'truncations', 'json_bodies', 'urlencoded_bodies', 'random_bytes_bodies',
             'chunked_malformed_framing', 'delivered_fields_checked', 'step_budget_armed', 'accessor_forms', 'accessor_files', 'accessor_json',
             'accessor_body', 'accessor_POST', 'header_mutations', 'content_type_mutations']
 ASSUMPTIONS = ['a statement that never returns from C code (regular-expression engine) is invisible to LINE events: pathological header shapes are served in a child under RLIMIT_CPU = 40 CPU seconds (measured need < 2); CPU time, not wall-clock',
@@ -69,6 +69,18 @@ HEADER_MUTS = [
     ('space_only', lambda h: ' '),
     ('eq_only', lambda h: 'Content-Disposition: ='),
     ('semicolons', lambda h: 'Content-Disposition: ;;;'),
+    # extended / continued parameters (RFC 5987 / 2231 spellings), well-formed and not
+    ('ext_param_ok', lambda h: h + "; filename*=UTF-8''%e2%82%ac.txt"),
+    ('ext_param_no_quotes', lambda h: h + '; filename*=report.txt'),
+    ('ext_param_one_quote', lambda h: h + "; filename*=UTF-8'x"),
+    ('ext_param_empty', lambda h: h + '; filename*=""'),
+    ('ext_param_bad_charset', lambda h: h + "; filename*=bogus-8''x"),
+    ('ext_param_bad_bytes', lambda h: h + "; filename*=UTF-8''%ff%fe"),
+    ('ext_param_bad_percent', lambda h: h + "; filename*=UTF-8''%zz%"),
+    ('ext_name', lambda h: re.sub(r'name="([^"]*)"', r"name*=UTF-8''\1", h, 1)),
+    ('ext_name_plain', lambda h: re.sub(r'name="([^"]*)"', r'name*=\1', h, 1)),
+    ('continued_param', lambda h: re.sub(r'name="([^"]*)"', r'name*0="\1"; name*1="x"', h, 1)),
+    ('star_only', lambda h: h + '; *=x; **; =*'),
 ]
 
 
@@ -246,11 +258,15 @@ def fault_signature(errors, status):
     return f'server-fault-{status}:{exc}@{func}'
 
 
-def do_request(ctx, sc, apps, rng, body, ctype, framing, acc, B_mem, mclass, boundary=None):
-    key = (B_mem,)
+def do_request(ctx, sc, apps, rng, body, ctype, framing, acc, B_mem, mclass, boundary=None, max_body='pick'):
+    if max_body == 'pick':
+        max_body = rng.choice([None, None, None, 64, 150])     # config dimension: a configured body limit
+    if max_body is not None:
+        ctx.count('requests_with_max_body_size')
+    key = (B_mem, max_body)
     if key not in apps:
         seen = {}
-        apps[key] = (build_app(seen, B_mem, None), seen)
+        apps[key] = (build_app(seen, B_mem, max_body), seen)
     app, seen = apps[key]
     seen.clear()
     policy = rng.choice(['full', 'full', ('rand', rng)])
@@ -299,14 +315,14 @@ def do_request(ctx, sc, apps, rng, body, ctype, framing, acc, B_mem, mclass, bou
     except BudgetExceeded:
         sc.disarm()
         ctx.violation('step-budget-exceeded', f'{mclass} ctype={ctype!r} framing={framing} accessor={acc}: more than {budget} line events for {len(body)} body bytes',
-                      wit(body, ctype, framing, acc, B_mem))
+                      wit(body, ctype, framing, acc, B_mem, max_body))
         return
     steps = sc.disarm()
     ctx.note_max('max_steps_per_body_byte_x10', int(10 * steps / max(1, len(body))) if len(body) > 50 else 0)
     ctx.count('requests')
     ctx.count('accessor_' + acc)
-    where = f'[{mclass}] ctype={ctype!r} framing={framing} accessor={acc} memfile={B_mem} body={body[:120]!r}{"..." if len(body) > 120 else ""}'
-    w = wit(body, ctype, framing, acc, B_mem)
+    where = f'[{mclass}] ctype={ctype!r} framing={framing} accessor={acc} memfile={B_mem} max_body_size={max_body} body={body[:120]!r}{"..." if len(body) > 120 else ""}'
+    w = wit(body, ctype, framing, acc, B_mem, max_body)
     if isinstance(r.escaped, BudgetExceeded) or sc.tripped:
         ctx.violation('step-budget-exceeded', f'{where}: more than {budget} line events', w)
         return
@@ -341,8 +357,9 @@ def do_request(ctx, sc, apps, rng, body, ctype, framing, acc, B_mem, mclass, bou
                     return
 
 
-def wit(body, ctype, framing, acc, B_mem):
-    return {'unit': {'kind': 'one', 'body': body[:20000].decode('latin1'), 'ctype': ctype, 'framing': framing, 'acc': acc, 'B': B_mem, 'truncated_witness': len(body) > 20000}}
+def wit(body, ctype, framing, acc, B_mem, max_body=None):
+    return {'unit': {'kind': 'one', 'body': body[:20000].decode('latin1'), 'ctype': ctype, 'framing': framing, 'acc': acc, 'B': B_mem, 'max_body': max_body,
+                     'truncated_witness': len(body) > 20000}}
 
 
 ACCS = ['forms', 'files', 'POST', 'params', 'json', 'body', 'all']
@@ -554,6 +571,6 @@ def run_unit(ctx, unit):
         sc = StepCounter().install()
         try:
             bnd = B.encode() if unit['ctype'] and B in unit['ctype'] and unit['ctype'].lower().startswith('multipart/form-data') else None
-            do_request(ctx, sc, {}, ctx.rng, unit['body'].encode('latin1'), unit['ctype'], unit['framing'], unit['acc'], unit['B'], 'replay', boundary=bnd)
+            do_request(ctx, sc, {}, ctx.rng, unit['body'].encode('latin1'), unit['ctype'], unit['framing'], unit['acc'], unit['B'], 'replay', boundary=bnd, max_body=unit.get('max_body'))
         finally:
             sc.uninstall()
